@@ -506,6 +506,13 @@ func (e *kvElection) becomeFollower() bool {
 	e.mu.Lock()
 	defer e.mu.Unlock()
 
+	// A stopped election stays STOPPED: an acquisition or heartbeat that was in
+	// flight when Stop/StopWithContext ran must not move it back to FOLLOWER
+	// (Stop has cleared the claim and takes care of OnDemote itself).
+	if e.ctx == nil || e.ctx.Err() != nil {
+		return false
+	}
+
 	fromState := StateInit
 	if s := e.state.Load(); s != nil {
 		if str, ok := s.(string); ok {
